@@ -79,6 +79,8 @@ class MatrixProductOperator(EndomorphicOperator):
             raise ValueError("Matrix must be quadratic.")
         appl_dim = mat_dim // 2  # matrix application space dimension
 
+        if isinstance(spaces, int):
+            spaces = (spaces, )
         # take shortcut for trivial case
         if spaces is not None:
             if len(self._domain.shape) == 1 and spaces == (0, ):
